@@ -136,6 +136,11 @@ class C03(Prop):
         ctx = dict(tool=case["tool"], text=text[:500], params=case.get("params"), flags=case.get("flags"),
                    known=case.get("known"), mandatory=case.get("mandatory"))
         if "err" in obs:
+            if obs["err"] == "ConflictingImportsError" and _real_conflict(case):
+                # a deliberate refusal ("Refusing to pretty-print because of conflicting imports"), not an internal
+                # error: the import the database asks for binds a name that one of the file's own top-level imports
+                # binds to something else (confirmed here independently of pyflyby)
+                return []
             return [dict(what="rewriter raised", err=obs["err"], msg=obs["errmsg"], **ctx)]
         out = obs["out"]
         fails = []
@@ -170,6 +175,28 @@ class C03(Prop):
             acc["no_final_newline"] = acc.get("no_final_newline", 0) + 1
 
     families = {}
+
+
+def _real_conflict(case):
+    if case.get("tool") != "tidy":
+        return False
+    def bound(stmts_text):
+        out = {}
+        try:
+            for m, lvl, nm, asn in R.top_imports(stmts_text):
+                full = "." * lvl + ((m + ".") if m else "") + nm
+                name = asn or (nm if m is not None or lvl else nm.split(".")[0])
+                key = (full, asn) if (m is not None or lvl or asn) else (nm, None)   # `import a.b` and `import a.c` both bind a, no conflict
+                out.setdefault(name, set()).add(full if (m is not None or lvl or asn) else "import:" + nm.split(".")[0])
+        except SyntaxError:
+            pass
+        return out
+    have = bound(case["text"])
+    cands = bound("".join(k + "\n" for k in list(case.get("known", [])) + list(case.get("mandatory", []))))
+    for name, fulls in cands.items():
+        if name in have and (fulls - have[name]):
+            return True
+    return False
 
 
 PROP = C03()
